@@ -136,14 +136,18 @@ Section Insert.
 End Insert.
 
 (* ------------------------------------------------------------------ *)
-(* doRemove (remove.go:55-177): descent, then on the way up the parent
-   dereferences n.Left and then n.Right before deciding whether to collapse
-   (:96-109).  An eviction BETWEEN these two dereferences that hits the embedded
+(* doRemove (remove.go:55-200, as repaired in 8b362ab): after the "key too
+   short" early return both children are dereferenced BEFORE the descent
+   (:88-95), the recursive result is stored into n.LeafNode/n.Right/n.Left only
+   on success (:99-116), then on the way up the parent dereferences n.Left and
+   then n.Right again before deciding whether to collapse (:118-131).  An eviction BETWEEN these two dereferences that hits the embedded
    leaf of the dirty internal node on the other side makes that node read as
    nil (cache.go:340-355), and the parent collapses the branch away: the
    transient variant of finding F1. *)
 Inductive rstate :=
 | RDown (fs : list frame) (d : nat) (cur : ptree)
+| RPre0 (fs : list frame) (d : nat) (c : bool) (lbl : path) (lf l r : ptree)   (* node dereferenced, key long enough *)
+| RPre1 (fs : list frame) (d : nat) (c : bool) (lbl : path) (lf l r : ptree)   (* n.Left pre-dereferenced (:90) *)
 | RRet (fs : list frame) (res : ptree)                        (* a call returns res to its parent *)
 | RCol0 (fs : list frame) (lbl : path) (lf l r : ptree)       (* children assigned; nothing dereferenced yet *)
 | RCol1 (fs : list frame) (lbl : path) (lf l r : ptree) (lp : bool)   (* n.Left dereferenced *)
@@ -152,12 +156,12 @@ Inductive rstate :=
 Definition non_nil (p : ptree) : bool := match deref1 p with PNil => false | _ => true end.
 Definition has_leaf (lf : ptree) : bool := match lf with PLeaf _ _ _ => true | _ => false end.  (* n.LeafNode.Node != nil *)
 
-(* remove.go:107-159 *)
+(* remove.go:133-176 *)
 Definition pcollapse (lbl : path) (lf l r : ptree) (lp rp : bool) : ptree :=
   if has_leaf lf && negb lp && negb rp then lf
   else if negb (has_leaf lf) && (negb lp || negb rp) then
     match deref1 (if lp then l else r) with
-    | PNode c lbl' lf' l' r' => PNode false (lbl ++ lbl') lf' l' r'      (* :128-139 *)
+    | PNode c lbl' lf' l' r' => PNode false (lbl ++ lbl') lf' l' r'      (* :152-166 *)
     | n => n
     end
   else PNode false lbl lf l r.
@@ -168,42 +172,52 @@ Section Remove.
   Definition rdown_step (fs : list frame) (d : nat) (cur : ptree) : rstate :=
     match deref1 cur with
     | PNode c lbl lf l r =>
-        let d' := (d + length lbl)%nat in
-        let kl := length (bits_of k) in
-        if (kl <? d')%nat then RRet fs cur                                 (* :83-85 *)
-        else if (kl =? d')%nat then                                        (* :86-87 *)
-          RCol0 fs lbl (match lf with
-                        | PLeaf _ k0 _ => if bytes_eqb k0 k then PNil else lf
-                        | _ => lf
-                        end) l r
-        else if bit (bits_of k) d' then RDown (mkF c lbl lf true l false :: fs) d' r
-        else RDown (mkF c lbl lf false r false :: fs) d' l
-    | n => RRet fs (full (fst (fst (remove d k (view n)))))                (* leaf or nil *)
+        if (length (bits_of k) <? d + length lbl)%nat then RRet fs cur         (* :83-86 *)
+        else RPre0 fs d c lbl lf l r
+    | n => RRet fs (full (fst (fst (remove d k (view n)))))                    (* leaf or nil *)
     end.
+
+  (* :99-116: recurse; the result is stored into the node on success *)
+  Definition rdescend (fs : list frame) (d : nat) (c : bool) (lbl : path) (lf l r : ptree) : rstate :=
+    let d' := (d + length lbl)%nat in
+    if (length (bits_of k) =? d')%nat then
+      RCol0 fs lbl (match lf with
+                    | PLeaf _ k0 _ => if bytes_eqb k0 k then PNil else lf
+                    | _ => lf
+                    end) l r
+    else if bit (bits_of k) d' then RDown (mkF c lbl lf true l false :: fs) d' r
+    else RDown (mkF c lbl lf false r false :: fs) d' l.
 
   Definition rstep (s : rstate) : rstate :=
     match s with
     | RDown fs d cur => rdown_step fs d cur
+    | RPre0 fs d c lbl lf l r => RPre1 fs d c lbl lf l r                     (* :90 deref n.Left *)
+    | RPre1 fs d c lbl lf l r => rdescend fs d c lbl lf l r                  (* :93 deref n.Right, then descend *)
     | RRet [] res => RDone res
     | RRet (f :: fs) res =>
         RCol0 fs (f_lbl f) (f_lf f) (if f_right f then f_sib f else res) (if f_right f then res else f_sib f)
-    | RCol0 fs lbl lf l r => RCol1 fs lbl lf l r (non_nil l)               (* :100 deref n.Left *)
-    | RCol1 fs lbl lf l r lp => RRet fs (pcollapse lbl lf l r lp (non_nil r))   (* :104 deref n.Right, collapse *)
+    | RCol0 fs lbl lf l r => RCol1 fs lbl lf l r (non_nil l)               (* :124 deref n.Left *)
+    | RCol1 fs lbl lf l r lp => RRet fs (pcollapse lbl lf l r lp (non_nil r))   (* :128 deref n.Right, collapse *)
     | RDone _ => s
     end.
 
   Inductive revent :=
   | RStep
-  | REvictL (p' : ptree)        (* evictions inside n.Left of the node being collapsed *)
+  | REvictL (p' : ptree)        (* evictions inside n.Left of the node at hand *)
   | REvictR (p' : ptree)        (* evictions inside n.Right *)
   | REvictSib (i : nat) (p' : ptree)
   | REvictCur (p' : ptree).
 
   Definition rframes (s : rstate) : list frame :=
-    match s with RDown fs _ _ | RRet fs _ | RCol0 fs _ _ _ _ | RCol1 fs _ _ _ _ _ => fs | RDone _ => [] end.
+    match s with
+    | RDown fs _ _ | RRet fs _ | RCol0 fs _ _ _ _ | RCol1 fs _ _ _ _ _
+    | RPre0 fs _ _ _ _ _ _ | RPre1 fs _ _ _ _ _ _ => fs
+    | RDone _ => []
+    end.
   Definition rwith_frames (s : rstate) (fs : list frame) : rstate :=
     match s with
     | RDown _ d c => RDown fs d c | RRet _ r => RRet fs r
+    | RPre0 _ d c a b x y => RPre0 fs d c a b x y | RPre1 _ d c a b x y => RPre1 fs d c a b x y
     | RCol0 _ a b c d => RCol0 fs a b c d | RCol1 _ a b c d e => RCol1 fs a b c d e
     | RDone r => RDone r
     end.
@@ -213,8 +227,12 @@ Section Remove.
     | RStep, _ => rstep s
     | REvictL p', RCol0 fs lbl lf l r => RCol0 fs lbl lf p' r
     | REvictL p', RCol1 fs lbl lf l r lp => RCol1 fs lbl lf p' r lp
+    | REvictL p', RPre0 fs d c lbl lf l r => RPre0 fs d c lbl lf p' r
+    | REvictL p', RPre1 fs d c lbl lf l r => RPre1 fs d c lbl lf p' r
     | REvictR p', RCol0 fs lbl lf l r => RCol0 fs lbl lf l p'
     | REvictR p', RCol1 fs lbl lf l r lp => RCol1 fs lbl lf l p' lp
+    | REvictR p', RPre0 fs d c lbl lf l r => RPre0 fs d c lbl lf l p'
+    | REvictR p', RPre1 fs d c lbl lf l r => RPre1 fs d c lbl lf l p'
     | REvictSib i p', _ => rwith_frames s (set_sib (rframes s) i p')
     | REvictCur p', RDown fs d _ => RDown fs d p'
     | _, _ => s
@@ -226,8 +244,10 @@ Section Remove.
   Definition rlegal (ev : ptree -> ptree -> Prop) (s : rstate) (e : revent) : Prop :=
     match e, s with
     | RStep, _ => True
-    | REvictL p', RCol0 _ _ _ l _ | REvictL p', RCol1 _ _ _ l _ _ => ev l p'
-    | REvictR p', RCol0 _ _ _ _ r | REvictR p', RCol1 _ _ _ _ r _ => ev r p'
+    | REvictL p', RCol0 _ _ _ l _ | REvictL p', RCol1 _ _ _ l _ _
+    | REvictL p', RPre0 _ _ _ _ _ l _ | REvictL p', RPre1 _ _ _ _ _ l _ => ev l p'
+    | REvictR p', RCol0 _ _ _ _ r | REvictR p', RCol1 _ _ _ _ r _
+    | REvictR p', RPre0 _ _ _ _ _ _ r | REvictR p', RPre1 _ _ _ _ _ _ r => ev r p'
     | REvictSib i p', _ => exists f, nth_error (rframes s) i = Some f /\ ev (f_sib f) p'
     | REvictCur p', RDown _ _ cur => ev cur p'
     | _, _ => False
